@@ -38,6 +38,7 @@ func genC02(c *ctx) {
 	p.Paths = 1 + c.n(3)
 	p.HalfTyped = []float64{0, 0.03, 0.08}[c.n(3)]
 	p.DistinctNames = c.chance(0.5)
+	p.Builtins = c.chance(0.3)
 	p.Terraformy = c.chance(0.5)
 	c.makeWorld(p)
 	stride := 5
@@ -153,6 +154,7 @@ func genC18(c *ctx) {
 	p.Layout = c.chance(0.5)
 	p.Violations = []float64{0, 0.05, 0.15}[c.n(3)]
 	p.Paths = 1 // positions are mapped by file name
+	p.Typing = c.chance(0.4)
 	c.makeWorld(p)
 	stride := 3
 	if c.thorough() {
